@@ -29,6 +29,14 @@ def condTok (stack : List Cond) (tok : String) : List Cond :=
   | ["mod", m, v] => .modEq (nat m) (nat v) :: stack
   | ["hash", o, l] => .hash (nat o) (nat l) :: stack
   | ["ref", r] => .ref (nat r) :: stack
+  | ["in", s, lo, hi] => .inR (nat s) (nat lo) (nat hi) :: stack
+  | ["off", s, i, v] => .offEq (nat s) (nat i) (nat v) :: stack
+  | ["cin", s, lo, hi, n] => .cntIn (nat s) (nat lo) (nat hi) (nat n) :: stack
+  | ["len", s, i, v] => .lenEq (nat s) (nat i) (nat v) :: stack
+  | ["ofat", n, o, ss] => .ofAt (nat n) (nat o) ((listOf ss "+").map nat) :: stack
+  | ["ofin", n, lo, hi, ss] => .ofIn (nat n) (nat lo) (nat hi) ((listOf ss "+").map nat) :: stack
+  | ["forat", o, ss] => .forAt (nat o) ((listOf ss "+").map nat) :: stack
+  | ["forin", lo, hi, ss] => .forIn (nat lo) (nat hi) ((listOf ss "+").map nat) :: stack
   | ["burn"] => .burn :: stack
   | ["not"] => (match stack with | a :: t => .not a :: t | t => t)
   | ["and"] => (match stack with | b :: a :: t => .and a b :: t | t => t)
@@ -65,10 +73,17 @@ def parseBlock (key : Nat) (s : String) : Option BlockDesc :=
   match s.splitOn "." with
   | [base, size, avail, ep, mods, cands] =>
     some { block := ⟨nat base, nat size, if avail == "1" then some key else none⟩,
-           facts := ⟨optNat ep, (listOf mods "&").filterMap parsePair, (listOf cands "&").filterMap parseCand, none⟩ }
+           facts := { ep := optNat ep, mods := (listOf mods "&").filterMap parsePair,
+                      cands := (listOf cands "&").filterMap parseCand, err := none } }
   | [base, size, avail, ep, mods, cands, err] =>
     some { block := ⟨nat base, nat size, if avail == "1" then some key else none⟩,
-           facts := ⟨optNat ep, (listOf mods "&").filterMap parsePair, (listOf cands "&").filterMap parseCand, optNat err⟩ }
+           facts := { ep := optNat ep, mods := (listOf mods "&").filterMap parsePair,
+                      cands := (listOf cands "&").filterMap parseCand, err := optNat err } }
+  | [base, size, avail, ep, mods, cands, err, epPM, modsPM] =>
+    some { block := ⟨nat base, nat size, if avail == "1" then some key else none⟩,
+           facts := { ep := optNat ep, mods := (listOf mods "&").filterMap parsePair,
+                      cands := (listOf cands "&").filterMap parseCand, err := optNat err,
+                      epPM := optNat epPM, modsPM := (listOf modsPM "&").filterMap parsePair } }
   | _ => none
 
 structure InputDesc where
@@ -101,7 +116,9 @@ def mkFacts (ins : List InputDesc) : Facts :=
 def parseSettings (fl to : Nat) : Settings :=
   let m := fl / 8 % 2 == 1
   let n := fl / 16 % 2 == 1
-  if !m && !n then ⟨true, true, to, true⟩ else ⟨m, n, to, true⟩
+  let fast := fl % 2 == 1
+  let pm := fl / 2 % 2 == 1
+  if !m && !n then ⟨true, true, to, true, fast, pm⟩ else ⟨m, n, to, true, fast, pm⟩
 
 def parseSched (s : String) : List Act :=
   if s == "-" then [] else
@@ -129,6 +146,7 @@ def errName : Err → String
   | .exec 25 => "EXEC_STACK_OVERFLOW"
   | .exec _ => "ERR_OTHER"
   | .iter _ => "COULD_NOT_READ_PROCESS_MEMORY"
+  | .couldNotAttach => "COULD_NOT_ATTACH_TO_PROCESS"
   | .verify 46 => "TOO_MANY_RE_FIBERS"
   | .verify _ => "ERR_OTHER"
 
@@ -162,7 +180,8 @@ def parseCase (toks : List String) : Option Case := do
   let mx := nat ((field toks "mx").getD "1000000")
   let set := parseSettings (nat ((field toks "fl").getD "0")) (nat ((field toks "to").getD "0"))
   let variant := if (field toks "mv") == some "current" then Variant.current else Variant.fixed
-  pure { P := mkParams rules imports mx walking (mkFacts ins), set := set, inputs := ins, variant := variant }
+  let single := (listOf ((field toks "ms").getD "-") "+").map nat
+  pure { P := mkParams rules imports mx walking (mkFacts ins) single, set := set, inputs := ins, variant := variant }
 
 structure St where
   sc : Sc
@@ -190,6 +209,14 @@ def stepOp (c : Case) (st : St) (op : String) : St × String :=
     match st.it with
     | some it => if st.lastRc = .blockNotReady then doCall st it else (st, "skip")
     | none => (st, "skip")
+  | ["F", fl] =>      -- yr_scanner_set_flags
+    ({ st with sc := { st.sc with set := parseSettings (nat fl) st.sc.set.timeout } }, "set")
+  | ["P", kind, cb] =>   -- yr_scanner_scan_proc: the process's memory is unknown to the model (any iterator does: Thm/C10)
+    if kind == "x" then (st, "P:NOATTACH")
+    else
+      let s1 : Sc := { st.sc with set := { st.sc.set with processMemory := true } }
+      let o := scanCall c.P c.variant (parseCb cb) 16384 s1 ⟨[], [], [], .success, none⟩ { st.w with nmsg := 0 }
+      ({ st with sc := { o.sc with set := st.sc.set }, it := some o.it, w := o.world, lastRc := o.rc }, "P:DONE")
   | _ => (st, "BADOP")
 
 def runOps (c : Case) : St → List String → List String
